@@ -843,13 +843,19 @@ package ion
 //@ ensures[C12,C19] old(w.err) != nil ==> err == old(w.err) && w.err == old(w.err)
 //@ ensures[C12,C19] err != nil ==> w.err != nil
 
+// A symbol token is written by its text whenever it has one; its ID is used only for a
+// token without text (C05). The ID written is the one the resolution returned.
 //@ func (*binaryWriter).WriteSymbol
 //@ modifies *
+//@ atcall[C05,C11] (*binaryWriter).resolveFromSymbolTable val.Text != nil && a2 == *val.Text
+//@ atcall[C05] (*binaryWriter).writeSymbolFromID [id uint64] a2 == id && (val.Text == nil ==> val.LocalSID != SymbolIDUnknown && id == uint64(val.LocalSID))
 //@ ensures[C12,C19] old(w.err) != nil ==> err == old(w.err) && w.err == old(w.err)
 //@ ensures[C12,C19] err != nil ==> w.err != nil
 
 //@ func (*binaryWriter).WriteSymbolFromString
 //@ modifies *
+//@ atcall[C05,C11] (*binaryWriter).resolve a2 == val
+//@ atcall[C05,C11] (*binaryWriter).writeSymbolFromID [id uint64] a2 == id
 //@ ensures[C12,C19] old(w.err) != nil ==> err == old(w.err) && w.err == old(w.err)
 //@ ensures[C12,C19] err != nil ==> w.err != nil
 
@@ -1050,6 +1056,12 @@ package ion
 //@ func (*binaryWriter).beginValue
 //@ split returns
 //@ modifies *
+//@ atcall[C05,C11] (*binaryWriter).resolve#0 [name *SymbolToken] name != nil && name.Text != nil && a2 == *name.Text
+//@ counts (*binaryWriter).resolve
+//@ atcall[C05,C11] appendVarUint#0 [id uint64, name *SymbolToken] a1 == id && name != nil &&
+//@    (vcCalls("(*binaryWriter).resolve") == 0 ==> name.Text == nil && name.LocalSID != SymbolIDUnknown && id == uint64(name.LocalSID))
+//@ atcall[C05,C11] (*binaryWriter).resolve#1 [a SymbolToken] a.Text != nil && a2 == *a.Text
+//@ atcall[C11] (*binaryWriter).writeLST old(w.lst) != nil && !old(w.wroteLST) && a1 == old(w.lst)
 //@ ensures[C12] (old(w.lst) == nil || old(w.wroteLST)) && old(len(w.ctx.arr)) > 0 && old(w.ctx.arr[len(w.ctx.arr)-1]) == ctxInStruct && old(w.fieldName) == nil ==> err != nil
 //@ ensures[C12] (old(w.lst) == nil || old(w.wroteLST)) && old(len(w.ctx.arr)) > 0 && old(w.ctx.arr[len(w.ctx.arr)-1]) == ctxInStruct && old(w.fieldName) != nil &&
 //@    old(w.fieldName.LocalSID) == SymbolIDUnknown && old(w.fieldName.Text) == nil ==> err != nil
@@ -1069,11 +1081,25 @@ package ion
 //@ func (*binaryWriter).writeLST
 //@ modifies *
 
+// Text of the form $n is a symbol ID reference; everything else goes to the symbol table.
 //@ func (*binaryWriter).resolve
 //@ modifies *
+//@ atcall[C05,C11] (*binaryWriter).resolveFromSymbolTable a1 == api && a2 == sym
+
+// With a fixed table, text is written with the table's own ID and unknown text is refused;
+// with a builder (imports seeded), the builder decides: an imported or already added text
+// keeps its ID, anything else is added (C11).
+//@ interface SymbolTableBuilder.Add
+//@ ensures specFindOK(recv, symbol) && specFindID(recv, symbol) == result0
 
 //@ func (*binaryWriter).resolveFromSymbolTable
+//@ split returns
 //@ modifies *
+//@ atcall[C11] SymbolTableBuilder.Add :: SymbolTableBuilder, string :: w.lst == nil && a0 == w.lstb && a1 == sym
+//@ ensures[C11] old(w.lst) != nil && err == nil ==> specFindOK(old(w.lst), sym) && result == specFindID(old(w.lst), sym)
+//@ ensures[C11] old(w.lst) != nil && !specFindOK(old(w.lst), sym) ==> err != nil
+//@ ensures[C11] old(w.lst) == nil && old(w.lstb) != nil ==> err == nil && specFindOK(w.lstb, sym) && specFindID(w.lstb, sym) == result
+//@ ensures[C11] w.lst == old(w.lst) && w.lstb == old(w.lstb)
 
 //@ func writeEscapedString
 //@ modifies *
